@@ -227,6 +227,40 @@ struct IdentWorld : World {
 					log.ev("NODE(C++) names %zu,%zu%s", L, L2, fired ? " allocfail" : ""); st.hit("probe:cxx_node_create");
 					outcome = 1; break;
 				}
+				if (op.c & 4) {
+					// lookup by name in a sibling list (mpt_node_locate): five nodes named with lengths around the pointer-sized and the inline
+					// boundaries; a key finds exactly the nodes whose name equals it, counted from the start node in the asked direction
+					static const size_t lens[] = {1, 2, 3, 4, 5, 7, 8, 11, 12, 13, 30};
+					node *nd[5]; std::string nm[5]; bool bad = false;
+					for (int k = 0; k < 5; ++k) {
+						size_t L = lens[(size_t) (op.c >> (3 + 2 * k)) % 11]; nm[k].assign(L, (char) ('a' + (op.c >> k) % 2));   // few distinct names: repeats are wanted
+						{ Sut su; nd[k] = mpt_node_new(k & 1 ? 0 : L + 1); } if (!nd[k]) { bad = true; for (int j = 0; j < k; ++j) { Sut su; mpt_node_destroy(nd[j]); } break; }
+						void *r; { Sut su; r = mpt_identifier_set(&nd[k]->ident, nm[k].c_str(), (int) L); } if (!r) fail("refused-valid", "node name of %zu bytes refused", L);
+					}
+					if (bad) break;
+					for (int k = 0; k < 5; ++k) { nd[k]->prev = k ? nd[k - 1] : 0; nd[k]->next = k < 4 ? nd[k + 1] : 0; }
+					auto expect = [&](int start, int pos, const std::string *key) -> int {
+						auto eq = [&](int i) { return key && nm[i] == *key; };
+						if (pos > 0) { for (int i = start; i < 5; ++i) if (eq(i) && !--pos) return i; return -1; }
+						if (pos == 0) { if (eq(4)) return 4; start = 4; pos = -1; }
+						for (int i = start - 1; i >= 0; --i) if (eq(i) && !++pos) return i; return -1;
+					};
+					auto idx = [&](const node *n) { for (int i = 0; i < 5; ++i) if (nd[i] == n) return i; return n ? 9 : -1; };
+					for (int q = 0; q < 12; ++q) {
+						uint64_t z = ((uint64_t) op.c + 1) * 0x9e3779b97f4a7c15ull + (uint64_t) q * 0xbf58476d1ce4e5b9ull; z ^= z >> 31;
+						int start = (int) (z % 5), pos = (int) ((z >> 8) % 7) - 3, how = (int) ((z >> 16) % 4);
+						std::string key = how == 3 ? std::string(lens[(z >> 24) % 11], 'a') : nm[(z >> 24) % 5];
+						const node *got; int want;
+						if (how == 2) { Sut su; got = mpt_node_locate(nd[start], pos, 0, 0, identifier::UTF8); want = -1; }        // a key of no bytes equals no name
+						else if (how == 1) { Block kb(key.size() + 1, 0); memcpy(kb.p, key.c_str(), key.size() + 1); Sut su; got = mpt_node_locate(nd[start], pos, kb.p, key.size() + 1, identifier::UTF8); want = expect(start, pos, &key); }
+						else { Block kb(key.size() + 1, 0); memcpy(kb.p, key.c_str(), key.size() + 1); Sut su; got = mpt_node_locate(nd[start], pos, kb.p, key.size(), -1); want = expect(start, pos, &key); }
+						if (idx(got) != want) fail("wrong-compare", "lookup (%s key of %zu bytes, position %d from node %d) in names of %zu,%zu,%zu,%zu,%zu bytes finds node %d, equal content is at node %d",
+							how == 2 ? "empty" : how == 1 ? "terminated" : "text", how == 2 ? (size_t) 0 : key.size(), pos, start, nm[0].size(), nm[1].size(), nm[2].size(), nm[3].size(), nm[4].size(), idx(got), want);
+					}
+					for (int k = 0; k < 5; ++k) { nd[k]->prev = nd[k]->next = 0; Sut su; mpt_node_destroy(nd[k]); }
+					log.ev("NODE locate in names %zu,%zu,%zu,%zu,%zu", nm[0].size(), nm[1].size(), nm[2].size(), nm[3].size(), nm[4].size()); st.hit("probe:node_locate");
+					outcome = 1; break;
+				}
 				// node name storage: a node sized for a name of some length, named, renamed across its inline limit, destroyed
 				size_t want = (size_t) op.c % 300, len1 = pick_len(op, t) % 400, len2 = (size_t) (op.c / 7) % 400;
 				if (len1 > pool.size()) len1 = pool.size(); if (len2 > pool.size()) len2 = pool.size();
